@@ -109,7 +109,7 @@ var c15Check = register("C15", "c15.error", func(c *errCase) error {
 	return nil
 })
 
-const c15Rule = "C15: valid sentences damaged by exactly one defect class, re-classified by the reference model before use: (i) k list words for every k in 0..40 outside {12,15,18,21,24}; (ii) right count, all list words, wrong checksum (any last word / checksum bits only / leading-zero entropies with the truncated-entropy checksum); (iii) acceptable count with 1..n tokens replaced by non-empty, whitespace-free strings not in the list (words of other lists, case/affix damage, arbitrary Unicode, invalid UTF-8), checksum arbitrary; (iv) valid sentences; (v) a valid sentence judged under another language immediately after being accepted under its own (class re-derived by the reference). One case in four is written with compatibility spaces (U+00A0, U+2000..U+200A, U+202F, U+205F, U+3000) between words. Oracle: errors.Is against the sentinels; for (iii) a non-sentinel error whose message contains an unknown token. Non-trivial: classes (i)-(iii) outside English 12-word sentences; distinct by (language, text)"
+const c15Rule = "C15: valid sentences damaged by exactly one defect class, re-classified by the reference model before use: (i) k list words for every k in 0..40 outside {12,15,18,21,24}; (ii) right count, all list words, wrong checksum (any last word / checksum bits only / leading-zero entropies with the truncated-entropy checksum); (iii) acceptable count with 1..n tokens replaced by non-empty, whitespace-free strings not in the list (words of other lists, case/affix damage, arbitrary Unicode, invalid UTF-8), checksum arbitrary; (iv) valid sentences; (vi) sentences valid in one language made only of words that another list shares (English/French, the two Chinese lists, ...), judged under one of the two languages right after the other; (v) a valid sentence judged under another language immediately after being accepted under its own (class re-derived by the reference). One case in four is written with compatibility spaces (U+00A0, U+2000..U+200A, U+202F, U+205F, U+3000) between words. Oracle: errors.Is against the sentinels; for (iii) a non-sentinel error whose message contains an unknown token. Non-trivial: classes (i)-(iii) outside English 12-word sentences; distinct by (language, text)"
 
 func TestC15_Errors(t *testing.T) {
 	cov.Rule(c15Rule)
@@ -278,6 +278,24 @@ func c15ErrorsProp(rt *rapid.T) {
 			c = &errCase{Lang: l2.Name(), Text: text(s), Want: class, Prime: &primeCall{Lang: l.Name(), Text: text(s)}}
 			l = l2
 			cov.Class("primed-by-valid-under-other-language")
+		}
+	}
+	if rapid.IntRange(0, 9).Draw(rt, "shared-words") == 0 {
+		// a sentence valid in A made only of words that B's list also contains, judged under A
+		// right after being judged under B (and the other way round)
+		pairs := gen.SharedPairs()
+		pr := pairs[rapid.IntRange(0, len(pairs)-1).Draw(rt, "pair")]
+		if idx := gen.SharedWordSentence(pr[0], pr[1]).Draw(rt, "shared"); idx != nil {
+			s2 := strings.Join(ref.Words(pr[0], idx), " ")
+			judgedUnder, primeUnder := pr[0], pr[1]
+			if rapid.Bool().Draw(rt, "judge-under-b") {
+				judgedUnder, primeUnder = pr[1], pr[0]
+			}
+			if class, _ := classifyText(judgedUnder, s2); class != "combined" {
+				c = &errCase{Lang: judgedUnder.Name(), Text: text(s2), Want: class, Prime: &primeCall{Lang: primeUnder.Name(), Text: text(s2)}}
+				l = judgedUnder
+				cov.Class("shared-word-sentence")
+			}
 		}
 	}
 	c15Record(c, l)
